@@ -26,7 +26,7 @@ from dask._task_spec import Task, TaskRef, Alias
 
 PROPERTY = "C20"
 LEVEL = "other"
-BUDGET = {"quick": 400, "thorough": 2400}
+BUDGET = {"quick": 400, "thorough": 4000}
 
 EXPLANATION = (
     "Bounded symbolic execution (symx: SInt proxies over z3 Int, fork on every comparison, DFS over decision "
